@@ -87,6 +87,7 @@ type epoch struct {
 	tid int
 	clk int32
 	pc  uintptr
+	pc2 uintptr // the next frame up: used when pc lies in a generic recorder's own wrapper frame
 }
 
 type shadowCell struct {
@@ -105,9 +106,9 @@ func (r *Run) access(addr uintptr, write bool, skip int) {
 		c = &shadowCell{}
 		r.shadow[addr] = c
 	}
-	var pcs [1]uintptr
+	var pcs [2]uintptr
 	runtime.Callers(skip+2, pcs[:])
-	me := epoch{t.id, t.vc.get(t.id), pcs[0]}
+	me := epoch{t.id, t.vc.get(t.id), pcs[0], pcs[1]}
 	if c.hasW && c.w.tid != t.id && c.w.clk > t.vc.get(c.w.tid) {
 		r.reportRace(c.w, true, me, write)
 	}
@@ -156,7 +157,13 @@ func (r *Run) reportRace(a epoch, aw bool, b epoch, bw bool) {
 		}
 		return "R"
 	}
-	s1, s2 := k(aw)+"@"+site(a.pc), k(bw)+"@"+site(b.pc)
+	at := func(e epoch) string {
+		if f := runtime.FuncForPC(e.pc); f != nil && strings.Contains(f.Name(), "/internal/verif/vrt.") && e.pc2 != 0 {
+			return site(e.pc2)
+		}
+		return site(e.pc)
+	}
+	s1, s2 := k(aw)+"@"+at(a), k(bw)+"@"+at(b)
 	if s2 < s1 {
 		s1, s2 = s2, s1
 	}
